@@ -592,6 +592,12 @@ tx_outs:\n{tx_outs}
             script_pubkey.is_p2wpkh() or script_pubkey.is_p2wsh() or script_pubkey.is_p2tr()
         ):
             return False
+        # BIP16: the ScriptSig of a p2sh spend is push-only (OP_16 and below)
+        if script_pubkey.is_p2sh() and any(
+            isinstance(command, int) and command > 0x60
+            for command in tx_in.script_sig.commands
+        ):
+            return False
         # combine the scripts
         combined_script = tx_in.script_sig + script_pubkey
         # evaluate the combined script
